@@ -12,25 +12,57 @@ STATEMENT = ("for every date t in [1900, 2300): dt(t), dt of its date, of its (y
              "timestamps, ISO / yyyymmdd / day-month-year (UK) / month-day-year (US) / month-name strings all equal t; dt(dt2str(t)) == t; "
              "ymd() drops the time of day; an unambiguous (day > 12) string in the other dialect raises ValueError; dt(y,m,d) with month or "
              "day out of range is the first day of the normalised month plus d-1 days")
-LEAN_FILES = ['Basic', 'Greg', 'GenTypes', 'Bump', 'DateParse', 'DateParseDriver', 'PygGen', 'Sweep', 'GregLemmas', 'GregPeriod', 'BumpLemmas',
-              'MonthLemmas', 'TokenLemmas', 'DateLemmas', 'DateStrLemmas', 'C04']
-GENERATED = ['PygGen.Ym', 'PygGen.Num2dt', 'PygGen.Tables']
+LEAN_FILES = ['Basic', 'Greg', 'GenTypes', 'Bump', 'DateParse', 'NpDate', 'DateParseDriver', 'PygGen', 'Sweep', 'GregLemmas', 'GregPeriod', 'BumpLemmas',
+              'MonthLemmas', 'TokenLemmas', 'DateLemmas', 'DateStrLemmas', 'DateTextLemmas', 'NpDateLemmas', 'MonthNameLemmas', 'MonthNameStrLemmas', 'SqueezeLemmas', 'AmbiguityLemmas', 'C04']
+GENERATED = ['PygGen.Ym', 'PygGen.Num2dt', 'PygGen.Tables', 'PygGen.Np2dt', 'PygGen.DuMonths']
 RULE = ('distinct protocol lines (one spelling of one instant, or one (y, m, d) overflow triple, or one translator-grid integer) on which '
         'dt()/ymd()/dt2str() returned a value')
-TRUSTED = ['harness/pv/translate.py (python ast -> Lean, validated each run on the threshold grid)',
+TRUSTED = ['harness/pv/translate.py (python ast -> Lean, validated each run on the threshold grid; np2dt: its isinstance chain only; '
+           'dateutil parserinfo.MONTHS lifted as a constant table)',
            'correspondence harness (pv.engine, pv.proto) and generators of pv.props.c04',
            'Lean driver parser/printer (PygModel/Basic.lean, DateParseDriver.lean)']
 ASSUMPTIONS = ['CPython datetime constructors / ordinals behave as PygModel/Greg.lean (sampled on every line)',
-               'dateutil.parser.parse reads a<sep>b<sep>yyyy month-first unless a > 12, and ISO / yyyymmdd / month-name spellings as written; '
-               'this is assumed by the model (duResolve, parseTokens) and decided by correspondence only',
-               'numpy datetime64 units truncate; pd.Timestamp is a datetime; both decided by correspondence only',
-               'time zones, dt() without arguments, two-digit years and yyyy-mm forms are not modelled']
+               'dateutil.parser.parse reads a<sep>b<sep>yyyy month-first unless a > 12, and ISO / yyyymmdd / month-name spellings as written '
+               '(month names looked up, lower-cased, in its own MONTHS table, which is lifted into the generated Gen.duMonths); '
+               'this is assumed by the model (duResolve, parseTokens) and sampled by correspondence',
+               'numpy: x.astype(datetime.datetime) gives a date for Y/M/W/D, a datetime for h..us, an int for ns or outside year 1..9999; '
+               'np.datetime64(t, unit) floors to the unit; pd.Timestamp(datetime64[ns]) / pd.Timestamp(t) is that instant, is a datetime.datetime '
+               'and compares equal to a datetime of the same instant (PygModel/NpDate.lean: hand-modelled integer arithmetic on (value, unit), '
+               'sampled by the ops np / np64 / pd / pdns over every unit and the whole datetime range); only the class dispatch of np2dt is generated',
+               'time zones, dt() without arguments, two-digit years (century = within 50 years of today: laws on day / month / rejection only) '
+               'and yyyy-mm forms are not modelled']
 
 D = datetime.datetime
 TD = datetime.timedelta
 TMIN, TMAX = D(1900, 1, 1), D(2300, 1, 1)
 SEPS = ['-', '/', '.', ' ']
 EXHAUSTIVE = {'thorough': True}
+
+
+EPOCH = D(1970, 1, 1)
+NS_MIN, NS_MAX = D(1677, 9, 21, 0, 12, 44), D(2262, 4, 11, 23, 47, 16)       # datetime64[ns] / int64 nanoseconds
+
+
+def _floor(t, td):
+    return t - ((t - EPOCH) % td)
+
+
+# unit -> t truncated to the unit, written independently of numpy (weeks are counted from 1970-01-01, a Thursday)
+NP_TRUNC = {'Y': lambda t: D(t.year, 1, 1), 'M': lambda t: D(t.year, t.month, 1), 'W': lambda t: _floor(t, TD(days=7)),
+            'D': lambda t: D(t.year, t.month, t.day), 'h': lambda t: _floor(t, TD(hours=1)), 'm': lambda t: _floor(t, TD(minutes=1)),
+            's': lambda t: _floor(t, TD(seconds=1)), 'ms': lambda t: _floor(t, TD(milliseconds=1)), 'us': lambda t: t}
+NP_TD = {'W': TD(days=7), 'D': TD(days=1), 'h': TD(hours=1), 'm': TD(minutes=1), 's': TD(seconds=1), 'ms': TD(milliseconds=1), 'us': TD(microseconds=1)}
+
+
+def np_value(t, u):
+    """the int64 a datetime64[u] of t holds (independent arithmetic: units since 1970-01-01, floor)"""
+    if u == 'Y':
+        return t.year - 1970
+    if u == 'M':
+        return (t.year - 1970) * 12 + t.month - 1
+    if u == 'ns':
+        return ((t - EPOCH) // TD(microseconds=1)) * 1000
+    return (t - EPOCH) // NP_TD[u]
 
 
 def special_days():
@@ -100,12 +132,49 @@ def wrap_ws(rng, s):
     return (rng.choice(WS) if k != 1 else '') + s + (rng.choice(WS) if k != 0 else '')
 
 
+DU_NAMES = None
+
+
+def du_names(month):
+    """the names dateutil's own table lists for the month (the generated Lean table Gen.duMonths is lifted from the same source)"""
+    global DU_NAMES
+    if DU_NAMES is None:
+        import dateutil.parser
+        DU_NAMES = [list(x) if isinstance(x, tuple) else [x] for x in dateutil.parser.parserinfo.MONTHS]
+    return DU_NAMES[month - 1]
+
+
+def recase(rng, w):
+    k = rng.randrange(4)
+    return w if k == 0 else w.lower() if k == 1 else w.upper() if k == 2 else ''.join(c.upper() if rng.random() < 0.5 else c.lower() for c in w)
+
+
 def name_strs(t, rng=None):
     mon, month = calendar.month_abbr[t.month], calendar.month_name[t.month]
     out = ['%02d %s %04d' % (t.day, month, t.year), '%d %s %04d' % (t.day, mon, t.year), '%s %d, %04d' % (month, t.day, t.year),
            '%d-%s-%04d' % (t.day, mon, t.year), '%s %d %04d' % (mon, t.day, t.year), '%d %s %04d' % (t.day, mon.lower(), t.year),
            '%s %02d, %04d' % (mon.upper(), t.day, t.year)]
+    if rng is not None:
+        # any name of dateutil's table ('Sept' too), any capitalisation, the four shapes of the theorem month_name_text
+        for _ in range(2):
+            w = recase(rng, rng.choice(du_names(t.month)))
+            dd = ('%02d' if rng.random() < 0.5 else '%d') % t.day
+            out.append(rng.choice(['%s %s %04d', '%s-%s-%04d']) % (dd, w, t.year) if rng.random() < 0.5 else
+                       rng.choice(['%s %s, %04d', '%s %s %04d']) % (w, dd, t.year))
     return out
+
+
+def time_suffix(rng, t):
+    """[ T]h:m[:s[.f]] of the time of day of t (the instant it carries is returned too)"""
+    lead = rng.choice(' T')
+    f = '%02d' if rng.random() < 0.7 else '%d'
+    k = rng.randrange(3) if not t.microsecond else 2
+    if k == 0:
+        return lead + (f + ':' + f) % (t.hour, t.minute), t.replace(second=0, microsecond=0)
+    s = lead + (f + ':' + f + ':' + f) % (t.hour, t.minute, t.second)
+    if k == 1 or not t.microsecond:
+        return s, t.replace(microsecond=0)
+    return s + '.%06d' % t.microsecond, t
 
 
 def spellings(t, rng, full):
@@ -117,12 +186,19 @@ def spellings(t, rng, full):
     out.append(('datetime', L('ts', enc(t)), t))
     out.append(('pandas', L('pd', enc(t)), t))
     out.append(('numpy-us', L('np', s_('us'), enc(t)), t))
-    if t.year < 2262:
+    if NS_MIN < t < NS_MAX:
         out.append(('numpy-ns', L('np', s_('ns'), enc(t)), t))
-    if whole:
-        out.append(('numpy-s', L('np', s_('s'), enc(t)), t))
+        out.append(('pandas-ns', L('pdns', 'I:%d' % np_value(t, 'ns')), t))
+        out.append(('numpy-raw-ns', L('np64', s_('ns'), 'I:%d' % np_value(t, 'ns')), t))
+    # np.datetime64(t, unit) keeps whole units: dt() of it is t truncated to the unit (numpy-D: the day; W: the Thursday-based week of numpy)
+    for u, tr in NP_TRUNC.items():
+        if u not in ('us', 'D') and (full or rng.random() < 0.3):
+            out.append(('numpy-' + u, L('np', s_(u), enc(t)), tr(t)))
+    # the same through the raw int64 value of the datetime64 (what np2dt's arithmetic sees)
+    u = rng.choice(list(NP_TRUNC))
+    out.append(('numpy-raw-' + u, L('np64', s_(u), 'I:%d' % np_value(t, u)), NP_TRUNC[u](t)))
     out.append(('date', L('date', 'DT:%d' % proto.dt2us(day)), day))
-    out.append(('numpy-D', L('np', s_('D'), enc(day)), day))
+    out.append(('numpy-D', L('np', s_('D'), enc(t)), day))
     out.append(('parts', L('ymd', 'I:%d' % t.year, 'I:%d' % t.month, 'I:%d' % t.day), day))
     if whole:
         out.append(('parts-hms', L('ymd', *['I:%d' % x for x in (t.year, t.month, t.day, t.hour, t.minute, t.second)]), t))
@@ -161,11 +237,11 @@ def spellings(t, rng, full):
     out.append(('uk-str-padsep', L('str', 'uk', s_(padsep_str(rng, t, True, wt))), exp))
     out.append(('us-str-padsep', L('str', 'us', s_(padsep_str(rng, t, False, wt))), exp))
     out.append(('parts-hms-us', L('ymd', *['I:%d' % x for x in (t.year, t.month, t.day, t.hour, t.minute, t.second, t.microsecond)]), t))
-    names = name_strs(t)
-    for s in (names if full else rng.sample(names, 2)):
+    names = name_strs(t, rng)
+    for s in (names if full else rng.sample(names[:-2], 1) + names[-2:]):
         out.append(('month-name', L('str', rng.choice(['uk', 'us']), s_(s)), day))
-    if whole:
-        out.append(('month-name-time', L('str', 'uk', s_(names[0] + ' %02d:%02d:%02d' % (t.hour, t.minute, t.second))), t))
+    suffix, exp = time_suffix(rng, t)
+    out.append(('month-name-time', L('str', rng.choice(['uk', 'us']), s_(rng.choice(names) + suffix)), exp))
     return out
 
 
@@ -205,6 +281,27 @@ def generate(rng, tier):
             yield dict(tag='us-str-read-as-uk-reject-ws', lines=[L('str', 'uk', s_(f(dialect_str(t, False, sep, pad, wt))))], expect='err ValueError')
             yield dict(tag='uk-str-read-as-us-reject-padsep', lines=[L('str', 'us', s_(padsep_str(rng, t, True, wt)))], expect='err ValueError')
             yield dict(tag='us-str-read-as-uk-reject-padsep', lines=[L('str', 'uk', s_(padsep_str(rng, t, False, wt)))], expect='err ValueError')
+    # ---- np2dt on raw datetime64 values (value, unit): every unit, the whole datetime range 0001..9999, the ends of the range, and
+    #      nanosecond values that are not whole microseconds (outside the property: t is a datetime; compared with the model only)
+    lo, hi = D(1, 1, 1), D(9999, 12, 31, 23, 59, 59, 999999)
+    for u in list(NP_TRUNC):
+        vlo, vhi = np_value(lo, u), np_value(hi, u)
+        if u == 'W':
+            vlo += 1                            # the week of 0001-01-01 starts in year 0
+        vals = [vlo, vlo + 1, vhi - 1, vhi, -1, 0, 1] + [rng.randint(vlo, vhi) for _ in range(40 if quick else 400)]
+        vals += [np_value(TMIN, u), np_value(TMAX, u) - 1] + [rng.randint(np_value(TMIN, u), np_value(TMAX, u)) for _ in range(40 if quick else 400)]
+        for v in vals:
+            yield dict(tag='np64-' + u, lines=[L('np64', s_(u), 'I:%d' % v)])
+        for v in (vlo - 1, vhi + 1, vlo - 1000, vhi + 1000):
+            yield dict(tag='np64-outside', lines=[L('np64', s_(u), 'I:%d' % v)])
+    i63 = 2 ** 63
+    for v in [-i63 + 1, i63 - 1, -1, 0, 1, 999, 1000, -999, -1000, -1001] + [rng.randint(-i63 + 1, i63 - 1) for _ in range(60 if quick else 600)]:
+        yield dict(tag='np64-ns', lines=[L('np64', s_('ns'), 'I:%d' % v)])
+        yield dict(tag='pd-ns', lines=[L('pdns', 'I:%d' % v)])
+    for _ in range(40 if quick else 400):
+        v = rng.randint(-i63 + 1, i63 - 1)
+        yield dict(tag='ymd()-np64', lines=[L('ymd/np64', s_('ns'), 'I:%d' % v)])
+        yield dict(tag='ymd()-pd', lines=[L('ymd/pdns', 'I:%d' % v)])
     # ---- month / day overflow
     ms, ds = list(range(-36, 49)), list(range(-400, 401))
     for _ in range(1500 if quick else 60000):
@@ -249,8 +346,8 @@ def generate(rng, tier):
 
 def as_plain(res):
     if isinstance(res, pd.Timestamp):
-        if res.nanosecond:
-            raise AssertionError('nanoseconds appeared')
+        if res.nanosecond:                      # an instant between two microseconds: (L T:<us> I:<nanoseconds>)
+            return 'ok (L %s I:%d)' % (enc(D(res.year, res.month, res.day, res.hour, res.minute, res.second, res.microsecond)), res.nanosecond)
         res = res.to_pydatetime()
     if not isinstance(res, datetime.datetime) or res.tzinfo is not None:
         return 'ok S:' + hexs(repr(res))
@@ -279,6 +376,10 @@ def call(op, args, fn):
         return as_plain(fn(pd.Timestamp(proto.dec_cell(args[0]))))
     if op == 'np':
         return as_plain(fn(np.datetime64(proto.dec_cell(args[1]), proto.dec_cell(args[0]))))
+    if op == 'np64':
+        return as_plain(fn(np.datetime64(int(args[1][2:]), proto.dec_cell(args[0]))))
+    if op == 'pdns':
+        return as_plain(fn(pd.Timestamp(int(args[0][2:]))))
     if op == 'str':
         return as_plain(fn(proto.dec_cell(args[1]), dialect=args[0]))
     if op == 'rt':
@@ -297,6 +398,7 @@ def run_line(state, sx):
 
 
 OUTSIDE = ('impossible-date', 'range-end', 'grid-num2dt')
+UNMODELLED = ('np64-outside',)     # the model answers bad-op (instants outside year 1..9999): nothing to compare
 
 
 def compare(case, i, line, ir, mr):
@@ -309,6 +411,8 @@ def compare(case, i, line, ir, mr):
     if proto.same_reply(ir, mr):
         return None
     if mr == 'bad-op':
+        if tag in UNMODELLED:
+            return None
         return ('divergence', 'the model does not cover this line (implementation: %s)' % ir)
     msg = 'implementation %s, model %s' % (ir, mr)
     if tag in OUTSIDE or tag.endswith('read-as-us') or tag.endswith('read-as-uk'):
@@ -377,8 +481,15 @@ def laws(rng, tier, ctx):
         ukp, usp = padsep_str(rng, tu, True, True), padsep_str(rng, tu, False, True)
         checks.append(('law-uk-padsep', L('str', 'uk', s_(ukp)), safe(dt, ukp), tu))
         checks.append(('law-us-padsep', L('str', 'us', s_(usp)), safe(dt, usp, dialect='us'), tu))
-        nm = rng.choice(name_strs(t))
+        nm = rng.choice(name_strs(t, rng))
         checks.append(('law-month-name', L('str', 'uk', s_(nm)), safe(dt, nm), day))
+        suffix, exp = time_suffix(rng, tu)
+        nmt, dia = rng.choice(name_strs(t, rng)) + suffix, rng.choice(['uk', 'us'])
+        checks.append(('law-month-name-time', L('str', dia, s_(nmt)), safe(dt, nmt, dialect=dia), exp))
+        for u in ('D', 's', 'ms', 'us', 'h', 'm'):
+            checks.append(('law-numpy-' + u, L('np', s_(u), enc(tu)), safe(dt, np.datetime64(tu, u)), NP_TRUNC[u](tu)))
+        if NS_MIN < tu < NS_MAX:
+            checks.append(('law-numpy-ns', L('np', s_('ns'), enc(tu)), safe(dt, np.datetime64(tu, 'ns')), tu))
         if t.day > 12:
             checks.append(('law-uk-rejects-us', L('str', 'uk', s_(uss)), safe(dt, uss), 'raise ValueError'))
             checks.append(('law-us-rejects-uk', L('str', 'us', s_(uks)), safe(dt, uks, dialect='us'), 'raise ValueError'))
@@ -388,6 +499,20 @@ def laws(rng, tier, ctx):
             checks.append(('law-us-rejects-uk', L('str', 'us', s_(uku)), safe(dt, uku, dialect='us'), 'raise ValueError'))
             checks.append(('law-uk-rejects-us', L('str', 'uk', s_(usp)), safe(dt, usp), 'raise ValueError'))
             checks.append(('law-us-rejects-uk', L('str', 'us', s_(ukp)), safe(dt, ukp, dialect='us'), 'raise ValueError'))
+        # two-digit years: the text does not carry the century (dateutil picks the one within 50 years of TODAY), so "equals t" is not
+        # claimed - but day and month are, and so is the rejection of the other dialect's unambiguous text
+        sep2 = rng.choice('/-. ')
+        f2 = '%02d' if rng.random() < 0.7 else '%d'
+        uk2 = (f2 + sep2 + f2 + sep2 + '%02d') % (t.day, t.month, t.year % 100)
+        us2 = (f2 + sep2 + f2 + sep2 + '%02d') % (t.month, t.day, t.year % 100)
+        for tag2, txt, dia in (('law-yy-uk', uk2, 'uk'), ('law-yy-us', us2, 'us')):
+            got = safe(dt, txt, dialect=dia)
+            count += 1
+            if not (isinstance(got, datetime.datetime) and (got.day, got.month, got.year % 100) == (t.day, t.month, t.year % 100)):
+                yield bad(tag2, L('str', dia, s_(txt)), 'got %s, the property demands day %d, month %d, year ..%02d' % (got, t.day, t.month, t.year % 100))
+        if t.day > 12:
+            checks.append(('law-yy-uk-rejects-us', L('str', 'uk', s_(us2)), safe(dt, us2), 'raise ValueError'))
+            checks.append(('law-yy-us-rejects-uk', L('str', 'us', s_(uk2)), safe(dt, uk2, dialect='us'), 'raise ValueError'))
         for tag, ln, got, want in checks:
             count += 1
             ok = (got == want) if not isinstance(want, str) else (isinstance(got, str) and got in ('raise ValueError', 'raise ParserError'))
